@@ -110,7 +110,7 @@ def build_decoy_variant(topo, P, kind, first_engine=None):
                 built.origins[o].C = vals.get(f"C_{o}", 2000.0)
     with np.errstate(all="ignore"):
         # first step with the kind of engine the real parameters belong to (engine's own variables)
-        net.step(engine=first_engine or NE("rand"), **T_.model_kwargs(topo, vals if kind == "links" and first_engine is None else {**vals, **{k: P[k] for k in T_.MODEL_PARAMS}}))
+        net.step(engine=first_engine or runs.symvar_engine(), **T_.model_kwargs(topo, vals if kind == "links" and first_engine is None else {**vals, **{k: P[k] for k in T_.MODEL_PARAMS}}))
     touch_all(net)
     if kind == "links":
         for o, c in saved.items():
@@ -133,7 +133,7 @@ def build_rescaled_after_step(topo, P, factor, first_engine=None):
 
     built = T_.build(topo, P)
     with np.errstate(all="ignore"):
-        built.net.step(engine=first_engine or NE("rand"), **T_.model_kwargs(topo, P))
+        built.net.step(engine=first_engine or runs.symvar_engine(), **T_.model_kwargs(topo, P))
     for l in built.links.values():
         l.turnrate = factor * l.turnrate
     return built
